@@ -1041,6 +1041,14 @@ func H_Twin() {
 	vrt.Reach("twin")
 }
 
+// H_Terminates (C11): reading tokens reaches EOF or ERROR within 2*len+2
+// reads (no reference involved: used for items without a defined meaning).
+func H_Terminates() {
+	input := hInput()
+	_, _, ended := hRun(input, 2*len(input)+2)
+	vrt.Assert(ended, "reaches-eof")
+}
+
 // H_Account (C11): termination and accounting for every byte.
 func H_Account() {
 	input := hInput()
